@@ -231,7 +231,8 @@ class HistProp(BaseProp):
         return hist.to_coq(c)
 
     def case_json(self, c):
-        return {"spec": list(c["spec"]), "snap_each": c["snap_each"], "ops": c["ops"], "id": c["id"]}
+        return {"spec": list(c["spec"]), "snap_each": c["snap_each"], "ops": c["ops"], "id": c["id"],
+                "wscale": c.get("wscale", 0)}
 
     def case_from_json(self, j):
         ops = []
@@ -248,7 +249,8 @@ class HistProp(BaseProp):
                 ops.append((k, op[1], _tup(op[2])))
             else:
                 ops.append((k,))
-        return {"id": j.get("id", "replay"), "spec": tuple(j["spec"]), "snap_each": j["snap_each"], "ops": ops}
+        return {"id": j.get("id", "replay"), "spec": tuple(j["spec"]), "snap_each": j["snap_each"], "ops": ops,
+                "wscale": j.get("wscale", 0)}
 
     def shrink_candidates(self, c):
         out = []
@@ -740,3 +742,6 @@ C15.manifest = {
             "(outcome, specs, nodes, edge multiset and all twelve private indexes of each result).",
     "technique": "Coq proof: constructor rebuild lemma + WF invariant; correspondence via hook snapshot of every result",
 }
+C03.rule += ' 20% of the all-real-weight histories run with a dyadic weight scale applied inside the harness (weights x 2^k in, weight-valued observations / 2^k out, k in {-60,-3,40}; exact in binary64).'
+C09.rule += ' 20% of the all-real-weight histories run with a dyadic weight scale applied inside the harness (weights x 2^k in, weight-valued observations / 2^k out, k in {-60,-3,40}; exact in binary64).'
+C15.rule += ' 20% of the all-real-weight histories run with a dyadic weight scale applied inside the harness (weights x 2^k in, weight-valued observations / 2^k out, k in {-60,-3,40}; exact in binary64).'
